@@ -25,7 +25,7 @@ theorem rstep_frameE (c : Cfg) (hw : WF c) (sh sh' : Sh) (k : Nat) (pc pc' : RPc
   cases pc with
   | space =>
     simp only [rstep] at h
-    cases hs : sh.inR.waitSpace c c.rblock with
+    cases hs : sh.inR.waitSpace c c.spaceNeed with
     | none => simp [hs] at h
     | some q =>
       obtain ⟨ret, r⟩ := q
@@ -239,7 +239,7 @@ theorem invR_recv (c : Cfg) (hw : WF c) (s : St) (sh' : Sh) (pc' : RPc) (k : Nat
       | false => rfl
       | true => rcases hi.tmo hto with h1 | h1 <;> simp [hpc, RPc.pastLoop] at h1
     simp only [rstep] at h
-    cases hs : s.sh.inR.waitSpace c c.rblock with
+    cases hs : s.sh.inR.waitSpace c c.spaceNeed with
     | none => simp [hs] at h
     | some q =>
       obtain ⟨ret, r⟩ := q
